@@ -6,6 +6,7 @@ import (
 	_ "go.amzn.com/verifh/c03"
 	_ "go.amzn.com/verifh/c04"
 	_ "go.amzn.com/verifh/c05"
+	_ "go.amzn.com/verifh/c06"
 	_ "go.amzn.com/verifh/c10"
 	_ "go.amzn.com/verifh/c11"
 	_ "go.amzn.com/verifh/c14"
